@@ -40,7 +40,9 @@ ALIAS_CHARS = ["\u0120", "\u2120", "\u010a", "\u0109", "\u010d", "\u0128", "\u01
 
 def soup(rnd):
     frags = ["1", "2.5", "a", "b1", "'s'", "\"q\"", "true", "f(", "(", ")", "[", "]", "{", "}", ",", ";", ":", "?", "+", "-", "*", "/", "%", "<<", ">>=", "==", "!=", "!", "not", "in", "AND", "OR",
-             "beginWith", "++", "--", "=", "+=", "&&", "||", "é", "😀", " ", "'", "\"", ".", "e", "1e", "1.2.3", "_", "#", "\\", "\x00", "\x0b", "€"]
+             "beginWith", "++", "--", "=", "+=", "&&", "||", "é", "😀", " ", "'", "\"", ".", "e", "1e", "1.2.3", "_", "#", "\\", "\x00", "\x0b", "€",
+             # escape-looking text inside and outside string literals (the language defines no escapes: they are plain characters)
+             "'\\uD800'", '"\\uDBFF\\uDFFF"', "'\\u0041'", "'\\x41\\0'", "'\\u{1F600}'", "'\\U0010FFFF'", "\\uD83D", "\\u", "\\x", "'%s{}{0}'", "'\\", "\\'"]
     n = rnd.randint(1, 60)
     out = []
     if rnd.random() < 0.05:
